@@ -139,6 +139,32 @@ structure EV.Inv (s : EV) : Prop where
   below : ∀ e ∈ s.trig, s.evicted e = true
   nodup : s.handed.Nodup
 
+theorem mem_insInt (a e : Int) (l : List Int) : e ∈ insInt a l ↔ e = a ∨ e ∈ l := by
+  induction l with
+  | nil => simp [insInt]
+  | cons b l ih =>
+    simp only [insInt]
+    split
+    · simp
+    · simp only [List.mem_cons, ih]
+      constructor
+      · rintro (h | h | h)
+        · exact Or.inr (Or.inl h)
+        · exact Or.inl h
+        · exact Or.inr (Or.inr h)
+      · rintro (h | h | h)
+        · exact Or.inr (Or.inl h)
+        · exact Or.inl h
+        · exact Or.inr (Or.inr h)
+
+theorem mem_sortInts (e : Int) (l : List Int) : e ∈ sortInts l ↔ e ∈ l := by
+  induction l with
+  | nil => simp [sortInts]
+  | cons a l ih => simp [sortInts, mem_insInt, ih]
+
+theorem mem_evFire (events : List Int) (slot e : Int) : e ∈ evFire events slot ↔ e ∈ events ∧ e ≤ slot := by
+  simp [evFire, mem_sortInts]
+
 theorem EV.inv_init : EV.init.Inv := by
   constructor <;> simp [EV.init]
 
@@ -184,37 +210,22 @@ theorem EV.inv_step (s : EV) (op : EVOp) (h : s.Inv) : (s.step op).1.Inv := by
       constructor
       · intro e he
         simp only [List.mem_filter] at he
-        have h1 := h.above e he.1
         simp only [EV.evicted]
-        cases hl : s.last with
-        | none => simp [hl] at he ⊢; omega
-        | some l =>
-          simp [EV.evicted, hl] at h1
-          simp [hl] at he ⊢
-          omega
+        simpa using he.2
       · intro e
-        simp only [h.handed e, List.mem_filter, List.mem_append, List.mem_range'_1]
+        simp only [h.handed e, List.mem_filter, List.mem_append, mem_evFire]
         constructor
         · rintro (h1 | h2)
-          · have h3 := h.above e h1
-            by_cases hr : e ≤ slot
-            · right; right
-              refine ⟨⟨?_, ?_⟩, by simpa using h1⟩
-              · cases hl : s.last with
-                | none => simp
-                | some l => simp [EV.evicted, hl] at h3 ⊢; omega
-              · cases hl : s.last with
-                | none => simp; omega
-                | some l => simp [EV.evicted, hl] at h3 ⊢; omega
-            · left
-              exact ⟨h1, by simp; omega⟩
-          · right; left; exact h2
+          · by_cases hr : e ≤ slot
+            · exact Or.inr (Or.inr ⟨h1, hr⟩)
+            · exact Or.inl ⟨h1, by simpa using hr⟩
+          · exact Or.inr (Or.inl h2)
         · rintro (h1 | h2 | h3)
           · exact Or.inl h1.1
           · exact Or.inr h2
-          · left; simpa using h3.2
+          · exact Or.inl h3.1
       · intro e he
-        simp only [List.mem_append, List.mem_filter, List.mem_range'_1] at he
+        simp only [List.mem_append, mem_evFire] at he
         simp only [EV.evicted]
         rcases he with h1 | h2
         · have := h.below e h1
@@ -224,12 +235,7 @@ theorem EV.inv_step (s : EV) (op : EVOp) (h : s.Inv) : (s.step op).1.Inv := by
             simp [EV.evicted, hl] at this
             have := hlast l hl
             simp; omega
-        · obtain ⟨⟨_, h3⟩, _⟩ := h2
-          cases hl : s.last with
-          | none => simp [hl] at h3 ⊢; omega
-          | some l =>
-            have := hlast l hl
-            simp [hl] at h3 ⊢; omega
+        · simpa using h2.2
       · exact h.nodup
 
 theorem EV.inv_run (s : EV) (ops : List EVOp) (h : s.Inv) : (s.run ops).Inv := by
